@@ -308,6 +308,21 @@ def _taglist_render(rng):
     return [], "[ O TagList [ data L [ " + "".join(t + " " for t in terms) + "] ] ]"
 
 
+def _serialize(rng):
+    d = real_dep(rng)
+    r = rng.random()
+    t = dep_term(d, None, True, 0, table=False)
+    if r < 0.08:        # attribute values the constructor would not produce
+        t = rng.choice([
+            "O HTMLDependency [ name I 1 version " + S("1") + " source N script L [ ] stylesheet L [ ] meta L [ ] all_files F head N ]",
+            "O HTMLDependency [ name " + H("h") + " version " + S("1") + " source N script L [ ] stylesheet L [ ] meta L [ ] all_files F head N ]",
+            "O HTMLDependency [ name " + S("n") + " version " + S("1") + " source N script U [ ] stylesheet L [ ] meta L [ ] all_files N head " + S("txt") + " ]",
+            "O HTMLDependency [ name " + S("n") + " ]", S("not a dep"), "N"])
+    ind = rng.choice(["N", "N", "I 0", "I 2", "I 4", "I 1"]) if rng.random() < 0.92 else rng.choice(["I -1", S("  "), "T"])
+    return [(str(d.version), True, 0, str(d.version))], f"[ {t} {ind} ]"
+
+
+C13_GENS["HTMLDependency_serialize"] = _serialize
 C13_GENS["HTMLTextDocument_render"] = _render
 C13_GENS["TagList_render"] = _taglist_render
 
